@@ -80,7 +80,19 @@ def unit_token(s):
     return UNIT_TOKEN.get(s, 999)
 
 
+# a Fraction assigned to an item is stored as it is; once all values are Fractions / ints, std() and mean() raise
+# TypeError (np.sqrt of a Fraction) -- reported; until decided, Fraction is not used as the bare number of an item
+# assignment (it still is an append / insert operand and a member of pairs, which the library converts to float)
+FRACTION_AS_BARE_NUMBER = False
+NP_TYPES = ["int64", "int32", "int8", "uint8", "float64", "float32"]
+
+
 def frac(x):
+    """exact rational of a number: JSON form (plain or typed), Python / numpy scalar, Fraction"""
+    if isinstance(x, dict):
+        return Fraction(x["v"][0], x["v"][1]) if x["t"] == "Fraction" else frac(x["v"])
+    if isinstance(x, Fraction):
+        return x
     if isinstance(x, bool):
         return Fraction(int(x))
     if isinstance(x, int):
@@ -92,7 +104,14 @@ def frac(x):
 
 
 def num(j):
-    """JSON number -> Python number (ints stay ints, floats floats, bools bools)"""
+    """JSON number -> Python object. Plain ints / floats / bools stay what they are;
+    {"t": "int64", "v": 5} is the numpy scalar np.int64(5); {"t": "Fraction", "v": [5, 2]} is Fraction(5, 2)
+    (all of them are numbers.Real)"""
+    if isinstance(j, dict):
+        if j["t"] == "Fraction":
+            return Fraction(j["v"][0], j["v"][1])
+        import numpy as np
+        return getattr(np, j["t"])(j["v"])
     return j
 
 
@@ -100,9 +119,9 @@ def num(j):
 def build_item(it, pool):
     t = it[0]
     if t == "num":
-        return it[1]
+        return num(it[1])
     if t == "pair":
-        return (it[1], it[2])
+        return (num(it[1]), num(it[2]))
     if t == "meas":
         return pool[it[1]]
     if t == "bad":
@@ -185,6 +204,20 @@ def exec_op(op, pool, store):
         return EXN.get(type(e).__name__, "Crash:" + type(e).__name__ + ":" + str(e)[:80])
 
 
+def low_precision(v):
+    import numpy as np
+    return isinstance(v, np.floating) and v.dtype.itemsize < 8
+
+
+def low_precision_array(a):
+    """are the aggregates of this array computed in less than double precision? (dtype float32, or an object
+    array -- values of mixed Python / numpy types -- with float32 members)"""
+    dt_ = a.values.dtype
+    if dt_.kind == "f" and dt_.itemsize < 8:
+        return True
+    return dt_.kind == "O" and any(low_precision(x.value) for x in a)
+
+
 def obs_elem(x):
     return [frac(x.value), frac(x.error), x.name, x.unit]
 
@@ -198,6 +231,8 @@ def obs_aggs(store):
     with warnings.catch_warnings():
         warnings.simplefilter("ignore")
         for k, a in enumerate(store):
+            if len(a) and low_precision_array(a):
+                continue      # numpy computes the aggregates of an all-float32 array in float32: not a 1e-9 matter
             s = a.sum()
             rest = None
             if len(a) >= 2:
@@ -221,6 +256,19 @@ def run_session(ops):
 
 
 # ---- generators -------------------------------------------------------------------------------
+def bare_ok(o):
+    """may this item be the right-hand side of an item assignment?"""
+    return FRACTION_AS_BARE_NUMBER or not (o[0] == "num" and isinstance(o[1], dict) and o[1]["t"] == "Fraction")
+
+
+def gen_bare(rng):
+    """the bare number of an item assignment"""
+    while True:
+        x = gen_num(rng, True)
+        if FRACTION_AS_BARE_NUMBER or not (isinstance(x, dict) and x["t"] == "Fraction"):
+            return x
+
+
 def gen_num(rng, allow_bool=False):
     k = rng.randrange(-2 ** 10, 2 ** 10)
     j = rng.choice([0, 0, 1, 2, 3, 4])
@@ -229,6 +277,16 @@ def gen_num(rng, allow_bool=False):
         return k
     if r > 0.97 and allow_bool:
         return True      # a bool is a numbers.Real (not inside array data: numpy turns it into np.bool_)
+    if r > 0.72 and allow_bool:
+        # every other numbers.Real: numpy scalars (e.g. an item taken from an integer numpy array), Fraction
+        t = rng.choice(NP_TYPES + ["Fraction"])
+        if t == "Fraction":
+            return {"t": t, "v": [k, 2 ** j]}
+        if t.startswith("float"):
+            return {"t": t, "v": k / 2 ** j}
+        if t == "uint8":
+            return {"t": t, "v": abs(k) % 200}
+        return {"t": t, "v": k % 100 if t == "int8" else k}
     return k / 2 ** j
 
 
@@ -237,6 +295,19 @@ def gen_err(rng):
     if r < 0.15:
         return 0
     return rng.randrange(0, 2 ** 6) / 2 ** rng.choice([0, 1, 2, 3, 5])
+
+
+def gen_perr(rng):
+    """the uncertainty inside a (value, error) pair: also as a numpy scalar"""
+    e = gen_err(rng)
+    r = rng.random()
+    if r < 0.1:
+        return {"t": "float32", "v": float(e)}
+    if r < 0.2:
+        return {"t": "float64", "v": float(e)}
+    if r < 0.25 and float(e).is_integer():
+        return {"t": "int64", "v": int(e)}
+    return e
 
 
 def gen_errspec(rng, n, malformed=False):
@@ -319,7 +390,7 @@ class SessionGen:
         if r < 0.4:
             return ["num", gen_num(rng, True)]
         if r < 0.7:
-            return ["pair", gen_num(rng, True), gen_err(rng)]
+            return ["pair", gen_num(rng, True), gen_perr(rng)]
         return ["meas", self.fresh_meas()]
 
     def operand(self, k):
@@ -365,6 +436,8 @@ class SessionGen:
                 o = self.operand(k)
             else:
                 o = self.item()
+            if not bare_ok(o):
+                o = ["num", gen_bare(rng)]
             self.do(["set", k, self.index(n, False), o])
 
 
@@ -383,7 +456,9 @@ def exhaustive_sessions():
     """small scope: every initial length 1..3 x every edit kind x every index in [-n-1, n+1] x operand kinds"""
     out = []
     operands = [["num", 7], ["pair", 7, 0.5], ["meas", 0], ["list", [["num", 7], ["pair", 8, 0.25]]], ["list", []],
-                ["arr", 1], ["bad", "str"], ["pair", 1, -1]]
+                ["arr", 1], ["bad", "str"], ["pair", 1, -1],
+                ["num", {"t": "int64", "v": 7}], ["num", {"t": "float32", "v": 7.5}], ["num", {"t": "Fraction", "v": [15, 2]}],
+                ["pair", {"t": "int32", "v": 7}, {"t": "float32", "v": 0.5}], ["num", True]]
     for n in (1, 2, 3):
         base = [["mk", [1.5 * (i + 1) for i in range(n)], ["common", 0.5], "x", "m"],
                 ["mk", [10, 20], ["each", [1, 2]], "o", "s"], ["meas", 4, 0.25, "mm", "s"]]
@@ -391,7 +466,8 @@ def exhaustive_sessions():
             for o in operands:
                 out.append(base + [["insert", 0, i, o], ["set", 0, 0, ["num", 99]]])
                 if -n - 1 <= i <= n:
-                    out.append(base + [["set", 0, i, o], ["append", 0, ["num", 3]]])
+                    if bare_ok(o):
+                        out.append(base + [["set", 0, i, o], ["append", 0, ["num", 3]]])
             out.append(base + [["delete", 0, i], ["append", 0, ["pair", 2, 0.5]], ["delete", 0, 0]])
         for o in operands:
             out.append(base + [["append", 0, o], ["append", 0, o], ["delete", 1, -1]])
@@ -555,7 +631,7 @@ def correspondence(ctx):
             res.nontrivial.add(core.canonical_key("s", ops))
     res.rule = ("sessions over one heap: initial arrays (no / common / per-element / relative uncertainties, with and without "
                 "name and unit, also names ending in _<digits>) then 3-13 random edits (append / insert / delete / item "
-                "assignment; operand = number, (value, error) pair, Measurement, list of those, ndarray of numbers, another "
+                "assignment; operand = number (Python int / float / bool, numpy int64 / int32 / int8 / uint8 / float64 / float32 scalar, Fraction), (value, error) pair of those, Measurement, list of those, ndarray of numbers, another "
                 "MeasurementArray; target = the latest array (75%) or any older one; indices uniform over the valid range "
                 "incl. negative ones, 12% out of range; 12% malformed operands; 8% aliased operands), generated against the "
                 "live lengths; plus an exhaustive small scope (lengths 1-3 x every index in [-n-2, n+2] x 8 operand shapes x "
@@ -601,9 +677,9 @@ INDEXLIKE_IN_ORACLE = True
 def o_item_build(it):
     t = it[0]
     if t == "num":
-        return it[1], (frac(it[1]), Fraction(0))
+        return num(it[1]), (frac(it[1]), Fraction(0))
     if t == "pair":
-        return (it[1], it[2]), (frac(it[1]), frac(it[2]))
+        return (num(it[1]), num(it[2])), (frac(it[1]), frac(it[2]))
     if t == "meas":
         return make_meas(it[1:]), (frac(it[1]), frac(it[2]))
     raise ValueError(it)
@@ -672,22 +748,33 @@ def check_aggregates(arr, model):
     n = len(model)
     if n < 1:
         return None
+    # an array whose stored values are float32 scalars is summed / averaged by numpy in float32
+    lowp = low_precision_array(arr)
+    tol = Fraction(1, 10 ** 11)
+    vtol = Fraction(1, 10 ** 5) if lowp else Fraction(1, 10 ** 12)
     with warnings.catch_warnings():
         warnings.simplefilter("ignore")
         s = arr.sum()
         sx = sum(v for v, _ in model)
         se2 = sum(e * e for _, e in model)
-        if not close(frac(s.value), sx) or frac(s.error) is None or frac(s.error) < 0 or not close(frac(s.error) ** 2, se2, Fraction(1, 10 ** 11)):
+        if not close(frac(s.value), sx, vtol) or frac(s.error) is None or frac(s.error) < 0 or not close(frac(s.error) ** 2, se2, tol):
             return "sum() is {} +/- {} but sum(x_i) = {} and sqrt(sum(s_i^2)) = {}".format(
                 s.value, s.error, float(sx), math.sqrt(se2))
         if n >= 2:
             mean = sx / n
             var = sum((v - mean) ** 2 for v, _ in model) / (n - 1)
             m, sd = arr.mean(), arr.std()
-            if frac(sd) is None or frac(sd) < 0 or not close(frac(sd) ** 2, var, Fraction(1, 10 ** 11)):
+            if lowp:      # only the orders of magnitude: float32 rounding of the deviations from the mean
+                scale = float(var) + float(mean) ** 2 + 1
+                if abs(float(sd) ** 2 - float(var)) > 1e-4 * scale or abs(float(m.error) ** 2 - float(var / n)) > 1e-4 * scale \
+                        or not close(frac(m.value), mean, vtol):
+                    return "mean() / std() are {} +/- {} / {} but the mean is {}, std {}".format(
+                        m.value, m.error, sd, float(mean), math.sqrt(var))
+                return None
+            if frac(sd) is None or frac(sd) < 0 or not close(frac(sd) ** 2, var, tol):
                 return "std() is {} but the sample standard deviation is {}".format(sd, math.sqrt(var))
-            if not close(frac(m.value), mean) or frac(m.error) is None or frac(m.error) < 0 \
-                    or not close(frac(m.error) ** 2, var / n, Fraction(1, 10 ** 11)):
+            if not close(frac(m.value), mean, vtol) or frac(m.error) is None or frac(m.error) < 0 \
+                    or not close(frac(m.error) ** 2, var / n, tol):
                 return "mean() is {} +/- {} but the mean is {} and std/sqrt(n) is {}".format(
                     m.value, m.error, float(mean), math.sqrt(var / n))
             if m.unit != arr.unit or s.unit != arr.unit:
@@ -755,7 +842,7 @@ def check_history_oracle(case):
                     if op[2][0] == "num":
                         new_model = list(model)
                         new_model[i] = (frac(op[2][1]), model[i][1])
-                        cur[key(op[1])] = op[2][1]
+                        cur[key(op[1])] = num(op[2][1])
                     else:
                         obj, pair = o_item_build(op[2])
                         new_model = list(model)
@@ -787,7 +874,7 @@ def gen_oracle_item(rng):
     if r < 0.35:
         return ["num", gen_num(rng, True)]
     if r < 0.7:
-        return ["pair", gen_num(rng, True), gen_err(rng)]
+        return ["pair", gen_num(rng, True), gen_perr(rng)]
     return gen_meas(rng)
 
 
@@ -824,7 +911,8 @@ def gen_oracle_case(rng):
         else:
             if n == 0:
                 continue
-            ops.append(["set", rng.randrange(-n, n), gen_oracle_item(rng)])
+            it = gen_oracle_item(rng)
+            ops.append(["set", rng.randrange(-n, n), it if bare_ok(it) else ["num", gen_bare(rng)]])
     case = {"init": init, "ops": ops}
     if rng.random() < 0.2:
         case["npidx"] = True        # the same indices as numpy integers
@@ -917,6 +1005,26 @@ def shrink_case(case):
     return small
 
 
+def typed_number_cases():
+    """every numbers.Real type as the bare number of an item assignment, of append / insert, and inside a pair"""
+    out = []
+    for t in NP_TYPES + ["Fraction", "bool"]:
+        if t == "Fraction":
+            x, e = {"t": t, "v": [7, 2]}, {"t": t, "v": [1, 4]}
+        elif t == "bool":
+            x, e = True, True
+        elif t.startswith("float"):
+            x, e = {"t": t, "v": 3.5}, {"t": t, "v": 0.25}
+        else:
+            x, e = {"t": t, "v": 3}, {"t": t, "v": 1}
+        sets = [["set", 1, ["num", x]], ["set", -1, ["num", x]]] if bare_ok(["num", x]) else []
+        out.append({"init": [[1, 2, 4], ["each", [0.5, 0.25, 0.125]], "x", "m"],
+                    "ops": sets + [["append", ["num", x]],
+                            ["insert", 1, ["pair", x, e]], ["set", 0, ["pair", x, e]],
+                            ["append", ["list", [["num", x], ["pair", x, e]]]]]})
+    return out
+
+
 def search(ctx, suspects, budget):
     t0 = time.time()
     out = []
@@ -926,6 +1034,7 @@ def search(ctx, suspects, budget):
         if s.get("kind") == "session" and s.get("case"):
             todo += session_to_oracle_cases(s["case"])
     todo += [c["case"] for c in load_corpus() if c.get("kind") == "history"]
+    todo += typed_number_cases()
     n = 0
     limit = ctx.n(400, 20000)
     while True:
